@@ -263,7 +263,15 @@ fn body_sweep_alpha(ctx: &mut Ctx, alpha: Alpha, upto: usize, idx: &mut u64) {
 // BDDEnv::fp(a, t)
 
 fn check_fp_api(ctx: &mut Ctx, map: usize, start: usize) {
-    let c = json!({"part": "fp", "map": map, "start": start});
+    check_fp_api_mode(ctx, map, start, false);
+    // the transformer hands back an equal diagram in a FRESH allocation on every call (as one
+    // that converts from another symbol type or another environment does): equality of
+    // successive iterates is structural
+    check_fp_api_mode(ctx, map, start, true);
+}
+
+fn check_fp_api_mode(ctx: &mut Ctx, map: usize, start: usize, fresh: bool) {
+    let c = json!({"part": "fp", "map": map, "start": start, "fresh_allocations": fresh});
     ctx.begin_case(|| c.clone());
     ctx.count("evaluations", 1);
     let env = BDDEnv::<usize>::new();
@@ -288,12 +296,16 @@ fn check_fp_api(ctx: &mut Ctx, map: usize, start: usize) {
     let t = |x: Rc<BDD<usize>>| {
         calls.set(calls.get() + 1);
         let i = d.iter().position(|e| **e == *x).expect("machinery: fp handed the transformer a diagram outside D");
-        d[m[i]].clone()
+        if fresh {
+            crate::robdd::deep_copy(&d[m[i]])
+        } else {
+            d[m[i]].clone()
+        }
     };
     rsbdd::verif_hooks::set_fp_fuel(Some(64));
     let r = guarded(|| env.fp(d[start].clone(), t));
     rsbdd::verif_hooks::set_fp_fuel(None);
-    let key = format!("{TAG} fp: t={:?} on D=[F,T,v,-v], start {start}", m);
+    let key = format!("{TAG} fp: t={:?} on D=[F,T,v,-v], start {start}{}", m, if fresh { ", transformer returns fresh allocations" } else { "" });
     match (expect, r) {
         (Some((e, n)), Ok(res)) => {
             if *res != *d[e] {
@@ -302,13 +314,13 @@ fn check_fp_api(ctx: &mut Ctx, map: usize, start: usize) {
                 ctx.violation(key, format!("fp called the transformer {} times; reaching the first fixed element of the orbit takes exactly {n} applications", calls.get()), c);
             } else {
                 ctx.count("fp_orbits_with_fixed_element", 1);
-                ctx.distinct(&(map, start));
+                ctx.distinct(&(map, start, fresh));
             }
         }
         (Some(_), Err(p)) => ctx.violation(key, format!("fp did not return although the orbit contains a fixed element: {p}"), c),
         (None, Err(p)) if p.contains(rsbdd::verif_hooks::FUEL_EXHAUSTED_MARKER) => {
             ctx.count("fp_cyclic_orbits_exhaust_fuel", 1);
-            ctx.distinct(&(map, start));
+            ctx.distinct(&(map, start, fresh));
         }
         (None, Err(p)) => ctx.violation(key, format!("fp panicked: {p}"), c),
         (None, Ok(res)) => ctx.violation(key, format!("fp returned {} although no element of the orbit is fixed by t", crate::robdd::show(&res)), c),
